@@ -69,7 +69,7 @@ typedef struct thread_pool_event_s { /* Thread pool event. */
  									/* If not set - will report if data/space available untill disable/delete event. */
 #define TP_F_EXCLUSIVE	(((uint16_t)1) << 3) /* Set: not yet		EPOLLEXCLUSIVE */ /* Wakeup only one epoll(). Only on tpt_ev_add. */
 #endif
-#define TP_F_S_MASK	0x000fu /* For internal use: flags set mask. */
+#define TP_F_S_MASK	0x0003u /* For internal use: flags set mask (TP_F_EDGE, TP_F_EXCLUSIVE does not exist). */
 /* Return only. */
 #define TP_F_EOF	(((uint16_t)1) << 8) /* Ret: EV_EOF		EPOLLRDHUP */
 #define TP_F_ERROR	(((uint16_t)1) << 9) /* Ret: EV_EOF+fflags	EPOLLERR +  getsockopt(SO_ERROR) */ /* fflags contain error code. */
